@@ -79,8 +79,14 @@ def run_shard(tier, seed, idx, n, res, tmp):
             res.evaluations += 1
             res.count('backend_runs')
             replay = {'case': ci, 'backend': cfg, 'files': files}
+            run_cfg = cfg
+            if cfg == 'obj_c_client':
+                replay['objc_auth'] = OBJC_AUTHS[ci % len(OBJC_AUTHS)]
+                args = list(B.CONFIGS[cfg][1])
+                args[args.index('-w') + 1] = replay['objc_auth']
+                run_cfg = (B.CONFIGS[cfg][0], args)
             try:
-                B.run_backend(specs_to_ir(files), cfg, d)
+                B.run_backend(specs_to_ir(files), run_cfg, d)
             except BackendException as e:
                 last = e.traceback.strip().split('\n')[-1]
                 site = [ln for ln in e.traceback.split('\n') if ln.strip().startswith('File')]
@@ -420,10 +426,180 @@ def check_objc_types(res, m, texts, replay):
                 break
 
 
+OBJC_AUTHS = ['user', 'user', 'app', 'team', 'noauth', 'user']
+OBJC_STYLE_VARIANTS = {'upload': [('Url', ['inputUrl'], 'Upload'), ('Data', ['inputData'], 'Upload')],
+                       'download': [('Url', ['overwrite', 'destination'], 'Download'), ('Data', [], 'Download')],
+                       'rpc': [('', [], 'Rpc')]}
+
+
+def _match_paren(text, i):
+    """text[i] == '(' -> index just after the matching ')'."""
+    depth = 0
+    for j in range(i, len(text)):
+        if text[j] == '(':
+            depth += 1
+        elif text[j] == ')':
+            depth -= 1
+            if depth == 0:
+                return j + 1
+    return len(text)
+
+
+def objc_methods(code):
+    """(selector, body-or-None) of every instance/class method declared or defined in comment-free code."""
+    out = []
+    for mm in re.finditer(r'^[-+] *\(', code, re.M):
+        k = _match_paren(code, mm.end() - 1)
+        e = k
+        while e < len(code) and code[e] not in ';{':
+            e = _match_paren(code, e) if code[e] == '(' else e + 1
+        sig = code[k:e]
+        body = None
+        if e < len(code) and code[e] == '{':
+            depth, j = 0, e
+            while j < len(code):
+                if code[j] == '{':
+                    depth += 1
+                elif code[j] == '}':
+                    depth -= 1
+                    if depth == 0:
+                        break
+                j += 1
+            body = code[e:j + 1]
+        m0 = re.match(r'\s*(\w+)', sig)
+        if not m0:
+            continue
+        labels, pos, nargs = [m0.group(1)], m0.end(), 0
+        while True:
+            m1 = re.match(r'\s*:\s*\(', sig[pos:])
+            if not m1:
+                break
+            pos = _match_paren(sig, pos + m1.end() - 1)
+            m2 = re.match(r'\s*\w+', sig[pos:])
+            pos += m2.end() if m2 else 0
+            nargs += 1
+            m3 = re.match(r'\s*(\w+)(?=\s*:)', sig[pos:])
+            if not m3:
+                break
+            labels.append(m3.group(1))
+            pos += m3.end()
+        out.append((':'.join(labels) + (':' if nargs else ''), body))
+    return out
+
+
+def objc_route_generated(r, auth):
+    have = [a.strip() for a in (r.attrs.get('auth') or ('lit', 'user'))[1].split(',')]
+    return auth in have or ('noauth' in have and auth == 'user')
+
+
+def objc_expected_methods(m, ns, auth):
+    """selector -> (route variable, request style) for every method the routes of `ns` must get."""
+    exp = []
+    pre = 'DB' + pascal(ns.name).upper()
+    for r in ns.defs:
+        if r.kind != 'route' or not objc_route_generated(r, auth):
+            continue
+        vs = '' if r.version == 1 else 'V%d' % r.version
+        func = camel(r.name) + vs
+        var = pre + pascal(r.name) + vs
+        rt, nullable = m.resolve_alias(r.arg)
+        variants = []
+        if rt.kind == 'ref' and not nullable and not r.arg.nullable:
+            d = m.lookup(rt.ns, rt.name)
+            if d.kind == 'struct':
+                # these backends see the Api with aliases removed: a field typed by an alias of a
+                # nullable type is an optional field there (required first, then optional, ancestors first)
+                own = [f for s_ in m.chain(d) for f in m.own_fields(s_)]
+                req = [f for f in own if f.default is None and not m.is_nullable(f.type)]
+                allf = req + [f for f in own if f not in req]
+                if len(req) != len(allf):
+                    variants.append([camel(f.name) for f in req])
+                variants.append([camel(f.name) for f in allf])
+            else:
+                variants.append([camel(d.name)])
+        elif rt.kind == 'prim' and rt.name == 'Void':
+            variants.append([])
+        else:
+            return None     # argument types the backend does not support (recorded finding)
+        for suffix, extras, req_style in OBJC_STYLE_VARIANTS[route_style(r)]:
+            for args in variants:
+                names = args + extras
+                sel = func + suffix + (':' + ''.join(a + ':' for a in names[1:]) if names else '')
+                exp.append((sel, var, req_style, bool(args) or rt.kind == 'ref'))
+    return exp
+
+
 def check_objc_client(res, m, texts, replay):
     cfg = 'obj_c_client'
+    auth = replay.get('objc_auth', 'user')
     if not texts:
         res.violation({'kind': 'no_output', 'backend': cfg}, {}, replay)
         return
     res.count('declarations_checked')
     res.see(cfg, 'files', min(len(texts), 6))
+    auth_cls = pascal('user' if auth == 'noauth' else auth)
+    with_routes = []
+    for ns in m.namespaces:
+        exp = objc_expected_methods(m, ns, auth)
+        if exp is None:
+            res.skip('objc_client_unsupported_argument_type')
+            return
+        cls = 'DB%s%sAuthRoutes' % (pascal(ns.name).upper(), auth_cls)
+        for ext in ('h', 'm'):
+            fn = 'Routes/%s.%s' % (cls, ext)
+            text = texts.get(fn)
+            if not exp:
+                if text is not None:
+                    res.violation({'kind': 'routes_file_for_namespace_without_routes', 'backend': cfg},
+                                  {'file': fn, 'auth': auth}, replay)
+                continue
+            if text is None:
+                res.violation({'kind': 'file_missing', 'backend': cfg}, {'file': fn, 'auth': auth}, replay)
+                continue
+            got = [(sel, body) for sel, body in objc_methods(text) if sel != 'init:']
+            want = sorted(e[0] for e in exp)
+            have = sorted(sel for sel, _ in got)
+            res.count('objc_client_methods_checked', len(want))
+            if want != have:
+                missing = [x for x in want if x not in have]
+                extra = [x for x in have if x not in want]
+                dup = sorted({x for x in have if have.count(x) > 1})
+                res.violation({'kind': 'client_methods_differ', 'backend': cfg, 'file': ext,
+                               'how': 'missing' if missing else ('duplicate' if dup else 'surplus')},
+                              {'file': fn, 'auth': auth, 'missing': missing[:4], 'surplus': extra[:4],
+                               'duplicates': dup[:4]}, replay)
+                continue
+            res.see(cfg, 'methods_' + ext, auth, min(len(want), 5))
+            if ext == 'm':
+                by_sel = {e[0]: e for e in exp}
+                for sel, body in got:
+                    _, var, style, has_arg = by_sel[sel]
+                    body = body or ''
+                    res.count('objc_client_bodies_checked')
+                    m1 = re.search(r'DBRoute \*route = (\w+)\.(\w+);', body)
+                    m2 = re.search(r'\[self\.client request(\w+?):route arg:(\w+)', body)
+                    ok = (m1 and m1.group(1) == 'DB%sRouteObjects' % pascal(ns.name).upper() and
+                          m1.group(2) == var and m2 and m2.group(1) == style and
+                          m2.group(2) == ('arg' if has_arg else 'nil'))
+                    if not ok:
+                        res.violation({'kind': 'client_method_wiring', 'backend': cfg},
+                                      {'selector': sel, 'expected_route': var, 'expected_style': style,
+                                       'body': body[:300]}, replay)
+                    else:
+                        res.see(cfg, 'wiring', style, has_arg)
+        if exp:
+            with_routes.append(ns)
+    # the client class holds one routes object per namespace that has routes for this auth type
+    hdr, impl = texts.get('Client/ApiClient.h'), texts.get('Client/ApiClient.m')
+    if hdr is None or impl is None:
+        res.violation({'kind': 'file_missing', 'backend': cfg}, {'file': 'Client/ApiClient.[hm]'}, replay)
+        return
+    want = sorted('%sRoutes' % camel(ns.name) for ns in with_routes)
+    have_h = sorted(re.findall(r'@property \([^)]*\) \w+ \*\s*(\w+Routes);', hdr))
+    have_m = sorted(x[1:] for x in re.findall(r'(_\w+Routes) = \[\[\w+ alloc\] init:client\];', impl))
+    res.count('declarations_checked', 2)
+    if want != have_h or want != have_m:
+        res.violation({'kind': 'client_namespace_properties_differ', 'backend': cfg},
+                      {'expected': want, 'header': have_h, 'implementation': have_m, 'auth': auth}, replay)
+    else:
+        res.see(cfg, 'namespace_properties', min(len(want), 4))
